@@ -99,6 +99,7 @@ change_harness!(c14_paths_minus_2, b"--- ", 2, 8);
 change_harness!(c14_paths_minus_3, b"--- ", 3, 8);
 change_harness!(c14_paths_minus_4, b"--- ", 4, 9);
 change_harness!(c14_paths_minus_5, b"--- ", 5, 10);
+change_harness!(c14_paths_minus_6, b"--- ", 6, 11);
 change_harness!(c14_paths_plus_2, b"+++ ", 2, 8);
 change_harness!(c14_paths_plus_3, b"+++ ", 3, 8);
 change_harness!(c14_paths_plus_4, b"+++ ", 4, 9);
@@ -565,6 +566,44 @@ mod headers {
             assert!(paths == 0x44, "the second header is built from the second file's path");
             // the name used for the pending mode header: "n" (from the 21-byte diff line), once
             assert!(names == 1, "the pending mode header takes its file name from its own diff line");
+            assert!(unchanged == 0, "no metadata line shown besides the headers");
+        }
+        kani::cover!(!cfg.color_only && cfg.handled && headers == 2, "both headers written");
+    });
+
+    // An added file with content: "new file mode" announces it, ---/+++ confirm the pair
+    // (/dev/null, path): one header, built from that pair.
+    header_harness!(c14_headers_added_file, |sm, cp, cfg| {
+        feed(sm, "diff --git a/nnnn b/nn"); // 22 bytes -> stub name "nn"
+        feed(sm, "new file mode 100644");
+        feed(sm, "index 0000000..1111111");
+        feed(sm, "--- /dev/null");
+        feed(sm, "+++ b/nn");
+        sm.handle_pending_line_with_diff_name().unwrap();
+        let (headers, paths, unchanged, _) = read(cp);
+        if !cfg.color_only && cfg.handled {
+            assert!(headers == 1, "added file: exactly one header");
+            assert!(paths == 0x92, "built from (/dev/null, new path)");
+            assert!(unchanged == 0, "no metadata line shown besides the header");
+        }
+        kani::cover!(!cfg.color_only && cfg.handled && headers == 1, "header written");
+    });
+
+    // An EMPTY added file (no ---/+++ lines at all) followed by a modified file: the first
+    // section's header is written when the next section starts, from (/dev/null, its own name).
+    header_harness!(c14_headers_empty_added_then_modified, |sm, cp, cfg| {
+        feed(sm, "diff --git a/nnnn b/nn"); // 22 bytes -> stub name "nn"
+        feed(sm, "new file mode 100644");
+        feed(sm, "index 0000000..e69de29");
+        feed(sm, "diff --git a/f b/f");
+        feed(sm, "index 1111111..2222222 100644");
+        feed(sm, "--- a/f");
+        feed(sm, "+++ b/f");
+        sm.handle_pending_line_with_diff_name().unwrap();
+        let (headers, paths, unchanged, _) = read(cp);
+        if !cfg.color_only && cfg.handled {
+            assert!(headers == 2, "an empty added file still gets its header, and the next file its own");
+            assert!(paths == 0x9211, "first from (/dev/null, its own name), second from the modified file");
             assert!(unchanged == 0, "no metadata line shown besides the headers");
         }
         kani::cover!(!cfg.color_only && cfg.handled && headers == 2, "both headers written");
